@@ -60,6 +60,83 @@ def budget_for(flags, rng):
     return rng.choice([0, 1, 5, 60, 400, 1500, 1500])
 
 
+# ---- planner parameters: every declared parameter can take a non-default value (ParamSet range suggestions)
+PARAM_SKIP = {"range", "thread_count", "num_threads", "num_planners", "planners",
+              # structural GNAT parameters of STRIDE constrain each other (min <= degree <= max): not swept
+              "degree", "min_degree", "max_degree", "max_pts_per_leaf", "estimated_dimension"}
+PARAM_CHOICES = {  # sizes: small values only (a large batch only costs time)
+    "num_samples": ["100", "300", "1000"], "samples_per_batch": ["1", "10", "100", "200"],
+    "batch_size": ["1", "10", "100", "200"], "number_sampling_attempts": ["10", "100"],
+    "ordering_batch_size": ["1", "10", "100"], "max_failures": ["100", "1000"],
+    "max_nearest_neighbors": ["8", "10", "20"], "set_max_num_goals": ["1", "2", "10"],
+    "set_start_goal_pruning": ["1", "10", "50000"], "max_hybrid_paths": ["0", "2", "24"],
+    "pruning_radius": ["0.05", "0.3", "3"], "selection_radius": ["0.1", "0.5", "5"],
+    "inflation_scaling_parameter": ["1.0", "10", "100"], "initial_inflation_factor": ["1.0", "10", "1000000"],
+    "truncation_scaling_parameter": ["1.0", "5", "100"], "radius_multiplier": ["0.5", "1", "1.1", "2"],
+    "epsilon": ["0", "0.1", "0.4", "2"], "max_dist_near": ["0", "0.1", "1"],
+    # SPARS: a large dense delta makes every iteration connect to most of the dense graph (minutes, not a hang)
+    "dense_delta_fraction": ["0.0005", "0.001", "0.01"], "sparse_delta_fraction": ["0.1", "0.25", "0.5"],
+    "stretch_factor": ["1.1", "2", "3"],
+}
+
+
+def param_values(q):
+    """Admissible non-default values of one declared parameter, from its range suggestion."""
+    name, rs = q["name"], q["range"]
+    if name in PARAM_SKIP or not rs:
+        return []
+    if name in PARAM_CHOICES:
+        return PARAM_CHOICES[name]
+    if rs == "0,1":
+        return ["0", "1"]
+    parts = rs.split(":")
+    try:
+        lo, hi = float(parts[0]), float(parts[-1])
+    except ValueError:
+        return []
+    if "." not in rs and len(parts) == 2:   # integer range a:b
+        return [str(v) for v in range(int(lo), int(hi) + 1)][:8]
+    return ["%g" % lo, "%g" % hi, "%g" % ((lo + hi) / 2), "%g" % (lo + (hi - lo) * 0.1), "%g" % (lo + (hi - lo) * 0.9)]
+
+
+def sanitize_params(p, out):
+    """Documented requirements between parameters (the setters log an error when they are broken: API misuse,
+    not swept): informed sampling and sample rejection exclude each other; ordered sampling needs one of them;
+    the pruned measure needs informed sampling and tree pruning; focus_search is a macro for three others."""
+    dflt = {q["name"]: q["default"] for q in p.get("params", [])}
+
+    def eff(n):
+        return out.get(n, dflt.get(n, "0")) == "1"
+    if "focus_search" in out:
+        for n in ("informed_sampling", "tree_pruning", "new_state_rejection", "sample_rejection"):
+            out.pop(n, None)
+        if out["focus_search"] == "1":
+            dflt.update({"informed_sampling": "1", "tree_pruning": "1", "new_state_rejection": "1"})
+    if "informed_sampling" in dflt and "sample_rejection" in dflt and eff("informed_sampling") and eff("sample_rejection"):
+        out.pop("sample_rejection", None)
+        if eff("sample_rejection"):
+            out["sample_rejection"] = "0"
+    if "ordered_sampling" in dflt and "informed_sampling" in dflt and eff("ordered_sampling") \
+            and not (eff("informed_sampling") or eff("sample_rejection")):
+        out["ordered_sampling"] = "0"
+    if "pruned_measure" in dflt and eff("pruned_measure") and not (eff("informed_sampling") and eff("tree_pruning")):
+        out["pruned_measure"] = "0"
+    return out
+
+
+def pick_params(p, rng, prob=0.5):
+    """With probability `prob` a run keeps every default; otherwise each declared parameter is moved with
+    probability 1/2 to one of its admissible values."""
+    out = {}
+    if rng.random() < prob:
+        return out
+    for q in p.get("params", []):
+        vals = param_values(q)
+        if vals and rng.random() < 0.5:
+            out[q["name"]] = rng.choice(vals)
+    return sanitize_params(p, out)
+
+
 def make_jobs(cases, planners, n_cases, spaces_per_case, rng, all_r2=False):
     by = {}
     for c in cases:
@@ -87,7 +164,8 @@ def make_jobs(cases, planners, n_cases, spaces_per_case, rng, all_r2=False):
                              "budget": budget_for(p["flags"], rng),
                              "seed": rng.randrange(1, 1 << 30),
                              "res": rng.choice([0.01, 0.01, 0.05]),
-                             "query": rng.choice(["single"] * 5 + ["multistart", "goalstates", "region"])})
+                             "query": rng.choice(["single"] * 5 + ["multistart", "goalstates", "region"]),
+                             "params": pick_params(p, rng)})
         rng.shuffle(runs)
         # split so that shards balance
         for i in range(0, len(runs), 8):
@@ -104,7 +182,8 @@ def directional_jobs(cases, planners, n_cases, rng):
     jobs = []
     for c in rng.sample(pool, min(n_cases, len(pool))):
         runs = [{"planner": p["name"], "space": "DUBINS", "thr": rng.choice(["tiny", "cell"]), "range": "default",
-                 "budget": 6000 if p["flags"] & (F_MT | F_SLOW) else 2500, "seed": rng.randrange(1, 1 << 30), "res": 0.01}
+                 "budget": 6000 if p["flags"] & (F_MT | F_SLOW) else 2500, "seed": rng.randrange(1, 1 << 30), "res": 0.01,
+                 "params": pick_params(p, rng)}
                 for p in planners]
         for i in range(0, len(runs), 8):
             jobs.append({"case": c, "runs": runs[i:i + 8]})
@@ -215,7 +294,7 @@ def replay(path):
         case = {"W": r["W"], "H": r["H"], "obst": r["obst"], "start": r["start"], "goal": r["goal"]}
         run = {"planner": r["planner"], "space": r["space"], "thr": r["thr"], "range": r["range"],
                "budget": r["budget"], "seed": r["seed"], "res": r.get("resFrac", 10000) / 1e6,
-               "query": r.get("query", "single")}
+               "query": r.get("query", "single"), "params": r.get("params", {})}
         jp = os.path.join(d, "job.ndjson")
         vlib.write_ndjson(jp, [{"case": case, "runs": [run]}])
         out = os.path.join(d, "rerun.ndjson")
